@@ -2,7 +2,11 @@
 
 package sctp
 
-import "io"
+import (
+	"errors"
+	"io"
+	"time"
+)
 
 // C14 — stream close is ordered after the stream's data; identifiers can be reused.
 
@@ -336,3 +340,37 @@ func vh_C14_L7_reset_request_repeated_for_ever() {
 	vassert(a.tReconfig.isRunning() && len(a.reconfigs) == 1, "and is still pending and timed")
 	vcover("end")
 }
+
+// C14.L8: closing a stream resets it whatever its read side has been through. The reader's
+// last read timed out (the deadline error is still stored), or nothing was ever read; the
+// application closes the stream: the outgoing reset request is built and sent, so the peer's
+// reader gets end-of-file and the identifier can be used again.
+func vh_C14_L8_close_after_a_timed_out_read_still_resets() {
+	a, _ := vNewAssoc()
+	s, err := a.OpenStream(1, PayloadTypeWebRTCBinary)
+	vassert(err == nil, "open stream")
+	if vPick(2) == 1 {
+		vassert(s.SetReadDeadline(time.Now().Add(-time.Second)) == nil, "a deadline that has passed")
+		vRunSpawned()
+		_, _, rerr := s.ReadSCTP(make([]byte, 4))
+		vassert(errors.Is(rerr, ErrReadDeadlineExceeded), "the read times out")
+	}
+	vassert(s.Close() == nil, "close accepted")
+	a.cwnd, a.rwnd = 1<<20, 1<<20
+	found := false
+	for _, raw := range vWriterWake(a) {
+		for _, c := range vDecode(raw).chunks {
+			if rc, ok := c.(*chunkReconfig); ok {
+				if rq, ok := rc.paramA.(*paramOutgoingResetRequest); ok && len(rq.streamIdentifiers) == 1 && rq.streamIdentifiers[0] == 1 {
+					found = true
+				}
+			}
+		}
+	}
+	vassert(found, "the reset request for the closed stream goes on the wire")
+	vassert(len(a.reconfigs) == 1 && a.tReconfig.isRunning(), "and is repeated until it is answered")
+	vcover("end")
+}
+
+// C14.L9: end-of-file is final also for a reader that arms or clears its deadline afterwards (= C18.L4).
+func vh_C14_L9_deadline_after_eof_keeps_eof() { vh_C18_L4_read_deadline() }
